@@ -18,6 +18,10 @@ model files applied to the unit-`u` slice — for every configuration, unit coun
   take one example), so row independence is structural; it is the real-vs-real tie of
   `harness/props/c09.py` that checks it on the code (`layer(x)[i]` vs `layer(x[i:i+1])`).
 
+Companions: `Props/C09Units.lean` (the executables `finalizeUT` / `latticeConstraintT`, column-wise models of
+the full PWL / Linear / Categorical constraints and of the forward passes), `Props/C09Accepted.lean`
+(`CfgShape` / `DCfgWF` from acceptance).
+
 What ties the multi-unit model to the code: the driver ops `un.*` (same multi-unit input through
 `lattice_lib` private stages / `finalize_constraints`, `pwl_calibration_lib`, `linear_lib`, KFL) and,
 for everything not modelled with an explicit unit axis (categorical, convexity stages, layer
